@@ -53,6 +53,12 @@ type Scenario struct {
 	Fetch      int64    `json:"fetch_calls"`
 	ElapsedMs  int64    `json:"elapsed_ms"`
 	Failures   []string `json:"failures,omitempty"`
+	Notes      []string `json:"notes,omitempty"`
+	Probe      struct {
+		P50us int64 `json:"p50_us"`
+		P99us int64 `json:"p99_us"`
+		MaxUs int64 `json:"max_us"`
+	} `json:"probe"`
 }
 
 type Directed struct {
@@ -184,6 +190,11 @@ func main() {
 		c.Sample(map[string]interface{}{"scenario": sc.Name, "hold_ms": sc.HoldMs, "holds": sc.Holds, "reads": totalReads(sc),
 			"p50_us": sc.P50us, "p99_us": sc.P99us, "max_us": sc.MaxUs, "min_reads_per_reader_per_hold": sc.MinPerHold,
 			"fetchall_calls": sc.FetchAll, "elapsed_ms": sc.ElapsedMs})
+		for _, n := range sc.Notes {
+			c.Count("not-judged:timing:" + sc.Name)
+			c.Note(sc.Name + ": " + n)
+		}
+		c.Note(fmt.Sprintf("%s: scheduler wake-up overshoot p50 %dus p99 %dus max %dus", sc.Name, sc.Probe.P50us, sc.Probe.P99us, sc.Probe.MaxUs))
 		for _, f := range sc.Failures {
 			slim := sc
 			for i := range slim.Readers {
